@@ -449,7 +449,7 @@ func init() {
 	sched.Register(&sched.Scenario{Name: "C19/insert", Custom: c19insert, ReplayCustom: func(in json.RawMessage) []sched.Failure { return nil }})
 	sched.Register(&sched.Scenario{Name: "C19/collector", Setup: func(tier string) (sched.Config, func()) {
 		d := 4
-		b := sched.Bounds{Env: 1}
+		b := sched.Bounds{Env: 1, F: -1}
 		if tier == "thorough" {
 			d = 5
 			b.Env = 2
@@ -457,7 +457,7 @@ func init() {
 		return sched.Config{Bounds: b, Iterative: true}, c19collectorBody(d)
 	}})
 	sched.Register(&sched.Scenario{Name: "C19/concurrent", Setup: func(tier string) (sched.Config, func()) {
-		b := sched.Bounds{P: 2}
+		b := sched.Bounds{P: 2, F: -1}
 		if tier == "thorough" {
 			b.P = 3
 		}
